@@ -54,6 +54,15 @@ CHECKS = {
  "C12": dict(engine="E1", technique="stateless exhaustive schedule enumeration (deviation bounded) of one producing worker against the draining I/O thread and a scripted client",
    text="For a grid of outbuf_high_watermark {0,1,8,64} x send_bytes {1,8,100} x write sizes around the mark x client behaviours (partial drains then reading on, stall, reset or EOF at any point) every interleaving within the bound is executed: pending output sampled at every scheduling point never exceeds watermark + one write, a paused producer is never left waiting with space available, with the client reading, or after a disconnect, the client log is always a prefix of the expected stream and the iterable is closed after a disconnect.",
    note="as C04; the largest single write is measured at write_soon()", ref="DESIGN.md §4 C12"),
+ "C13": dict(engine="E1", technique="stateless exhaustive enumeration of fault placements x schedules (deviation bounded) over listener + faulted connection + bystander connection on the real code with a virtual OS",
+   text="Every placement of up to k injected errors (ECONNRESET, EPIPE, ENOTCONN, EBADF, EINVAL, generic OSError) on the faulted connection's setblocking/getsockopt/setsockopt/recv/send and on accept, plus client EOF and reset events, crossed with every interleaving within the deviation bound, is executed (also with a pipelined expecting request whose interim response is sent by the worker, and under poll()): the loop and the workers never exit, listener and trigger stay registered and open, the bystander's byte stream equals its reference, every socket close and socket-map mutation is performed by the I/O thread, a dead connection is torn down exactly once and unregistered.",
+   note="disconnect-class errnos are sticky (dead socket); release of an accepted socket whose set-up failed is by reference counting (not observable)", ref="DESIGN.md §4 C13"),
+ "C18": dict(engine="E2", technique="explicit-state BFS over event histories on the real server under a virtual clock with time-translation merging; plus E1 schedule enumeration for the end of service()",
+   text="All histories up to the stated depth over {connect, send-partial, send-complete, client-reads, client-stalls, app-finishes, clock += 1/cleanup/timeout/timeout+1} are executed on the real server, channels and poll loop (tasks run only by app-finishes) for small and default limits; in every state the socket map never exceeds connection_limit, nothing waits unaccepted below the limit, idle connections are closed within channel_timeout + cleanup_interval + one loop period, and a connection with a request in progress is never marked or closed. The window between popping the finished request and recording the activity is explored as an E1 scenario against a due maintenance pass.",
+   note="ages are capped beyond all thresholds (translation invariance); loop run to quiescence after each event; one listening socket", ref="DESIGN.md §4 C18, appendix C"),
+ "C19": dict(engine="E2", technique="exhaustive enumeration of pipelines x delivery modes + cut-graph BFS over all segmentations (sequential part) and deviation-bounded schedule enumeration (E1 part)",
+   text="All pipelines of up to three requests over six message kinds are delivered in one read, by a waiting client (body withheld until the interim or a final response arrives) and byte by byte, and under all segmentations for pipelines of up to two: an expecting HTTP/1.1 request whose body is outstanding at its turn gets exactly one '100 Continue' after its head is complete and after every earlier final response, others get none (at most one if complete), every request is executed once with its own header fields. The worker-side interim response is explored under all interleavings within the bound with the client really waiting.",
+   note="as C02 and C04", ref="DESIGN.md §4 C19"),
  "C14": dict(engine="E1", technique="stateless exhaustive schedule enumeration (pre-emption/deviation bounded) of the real dispatcher under a controlled scheduler",
    text="Every interleaving of submitters, workers, resize and shutdown of the real ThreadedTaskDispatcher within the stated deviation bound (pre-emption at every dispatcher source line and lock/condition operation) is executed and checked for exactly-once, FIFO hand-out, worker-count convergence and shutdown effects.",
    note="CPython line-atomicity; virtual threading primitives replace threading.Lock/Condition/Thread; bounds per scenario in evidence.parts", ref="DESIGN.md §4 C14, §2 E1"),
